@@ -59,6 +59,7 @@ class SymIter:
 
     def __init__(self, length: Any, at: Callable[[Any], Any]) -> None:
         self.length, self.at = length, at
+        self.pos = 0  # elements already consumed through next() (enumerate/zip/reversed/... are iterators)
 
 
 def iteration(ip: Any, it: Any) -> Any:
@@ -78,6 +79,9 @@ def iteration(ip: Any, it: Any) -> Any:
         snap = it.snapshot()
         return (snap.length, snap.getf)
     if isinstance(it, SymIter):
+        if it.pos:
+            p0, at0 = it.pos, it.at
+            return (it.length - p0, lambda k: at0(k + p0))
         return (it.length, it.at)
     if isinstance(it, (SMap, MapView)):
         raise Unsupported("iteration over a symbolic map (no order): only the key-preserving dict comprehension over .items()/.keys() is modelled")
@@ -1208,7 +1212,8 @@ def b_sorted(ip: Any, xs: Any, **kw: Any) -> Any:
 def b_reversed(ip: Any, xs: Any) -> Any:
     seq = iteration(ip, xs)
     if not isinstance(seq, list):
-        if isinstance(xs, SList):  # a sequence: element k of the reversed view is element len-1-k
+        if isinstance(xs, (SList, SymIter, SODict)):
+            # a sequence / ordered-dict view: element k of the reversed view is element len-1-k
             n, at = seq
             return SymIter(n, lambda k: at(n - 1 - k))
         raise Unsupported("reversed() of a symbolic-length iterable")
@@ -1258,6 +1263,14 @@ def b_next(ip: Any, it: Any, *default: Any) -> Any:
             if ip.S.fork(SBool(seq[0] > pos)):
                 it.fields["pos"] = pos + 1
                 return seq[1](z3.IntVal(pos))
+        if default:
+            return default[0]
+        raise raise_(ip, StopIteration)
+    if isinstance(it, SymIter):
+        if ip.S.fork(SBool(it.length > it.pos)):
+            v = it.at(z3.IntVal(it.pos))
+            it.pos += 1
+            return v
         if default:
             return default[0]
         raise raise_(ip, StopIteration)
@@ -1611,6 +1624,8 @@ def str_method(ip: Any, obj: Any, name: str, args: list[Any], kwargs: dict[str, 
         f = z3.PrefixOf if name == "startswith" else z3.SuffixOf
         return V.Or(*[SBool(f(_tt(o), t)) for o in opts]) if opts else False
     if name == "encode" and not isb:
+        if S.handlers.get("SStr.encode") is not None:  # the contract file supplies its own (weaker) contract of str.encode on symbolic strings
+            return S.handlers["SStr.encode"](S, obj, *args, **kwargs)
         enc = (args[0] if args else kwargs.get("encoding", "utf-8")).lower().replace("_", "-")
         if enc in ("utf-8", "utf8"):
             return encode_utf8(ip, obj)
@@ -2185,6 +2200,8 @@ _FMT_SIZES = {"B": 1, "H": 2, "I": 4, "Q": 8}
 def parse_fmt(fmt: str) -> list[tuple[str, int]]:
     import re
 
+    if fmt[:1] not in "<>=!@" and re.fullmatch(r"(\d*[Bs])+", fmt):
+        fmt = "<" + fmt  # native mode with one-byte fields only: no alignment padding and no byte order, same as '<'
     if not fmt.startswith("<"):
         raise Unsupported(f"struct format {fmt!r} (only little-endian '<' formats are modelled)")
     out: list[tuple[str, int]] = []
